@@ -885,6 +885,94 @@ t_misc(void)
 }
 
 /* NULL / zero arguments: no fault and an error code */
+/* NULL is a valid pointer wherever the length that goes with it is 0 (the SAFE_PARAM checks reject NULL only together with a
+ * non-zero length): multi-call AEAD sequences with a NULL AAD / NULL zero-length segments must work and give the reference result */
+static void
+t_null_zero(void)
+{
+        static struct gcm_key_data gk[3] __attribute__((aligned(64)));
+        static struct gcm_context_data gctx;
+        static struct chacha20_poly1305_context_data cctx;
+        static const int KL[3] = { 16, 24, 32 };
+        IMB_AES128_GCM_PRE(m, KEY[0], &gk[0]);
+        IMB_AES192_GCM_PRE(m, KEY[0], &gk[1]);
+        IMB_AES256_GCM_PRE(m, KEY[0], &gk[2]);
+        void *ginit[3] = { (void *) m->gcm128_init, (void *) m->gcm192_init, (void *) m->gcm256_init };
+        void *gupd[2][3] = { { (void *) m->gcm128_dec_update, (void *) m->gcm192_dec_update, (void *) m->gcm256_dec_update },
+                             { (void *) m->gcm128_enc_update, (void *) m->gcm192_enc_update, (void *) m->gcm256_enc_update } };
+        void *gfin[2][3] = { { (void *) m->gcm128_dec_finalize, (void *) m->gcm192_dec_finalize, (void *) m->gcm256_dec_finalize },
+                             { (void *) m->gcm128_enc_finalize, (void *) m->gcm192_enc_finalize, (void *) m->gcm256_enc_finalize } };
+        void *gone[2][3] = { { (void *) m->gcm128_dec, (void *) m->gcm192_dec, (void *) m->gcm256_dec },
+                             { (void *) m->gcm128_enc, (void *) m->gcm192_enc, (void *) m->gcm256_enc } };
+        void *minit[3] = { (void *) m->gmac128_init, (void *) m->gmac192_init, (void *) m->gmac256_init };
+        void *mupd[3] = { (void *) m->gmac128_update, (void *) m->gmac192_update, (void *) m->gmac256_update };
+        void *mfin[3] = { (void *) m->gmac128_finalize, (void *) m->gmac192_finalize, (void *) m->gmac256_finalize };
+        uint8_t exp[128], et[16];
+        static const uint32_t LS[4] = { 0, 1, 37, 64 };
+        for (int li = 0; li < 4; li++)
+                for (int d = 0; d < 2; d++) {
+                        const uint32_t l = LS[li];
+                        const uint8_t *in = inbuf(0, l ? l : 1, 9100 + l);
+                        uint8_t *out = outbuf(0, l ? l : 1);
+                        uint8_t *iv = place(RIV[0], 12);
+                        fill_rand(iv, 12, 9200 + l);
+                        uint8_t *tag = place(RTAG[0], 16);
+                        /* CHACHA20-POLY1305: init with aad = NULL / 0, NULL zero-length updates around the data */
+                        memset(tag, 0, 16);
+                        GUARDED("chacha20-poly1305-null-zero", {
+                                CALLN("chacha20_poly1305_init", m->chacha20_poly1305_init, A(KEY[0]), A(&cctx), A(iv), 0, 0);
+                                CALLN("chacha20_poly1305_update", d ? m->chacha20_poly1305_enc_update : m->chacha20_poly1305_dec_update, A(KEY[0]), A(&cctx), 0, 0, 0);
+                                if (l)
+                                        CALLN("chacha20_poly1305_update", d ? m->chacha20_poly1305_enc_update : m->chacha20_poly1305_dec_update, A(KEY[0]), A(&cctx), A(out), A(in), A(l));
+                                CALLN("chacha20_poly1305_update", d ? m->chacha20_poly1305_enc_update : m->chacha20_poly1305_dec_update, A(KEY[0]), A(&cctx), 0, 0, 0);
+                                CALLN("chacha20_poly1305_finalize", m->chacha20_poly1305_finalize, A(&cctx), A(tag), 16);
+                        });
+                        ref_chacha20_poly1305(d, KEY[0], iv, NULL, 0, in, exp, l, et);
+                        n_eval++;
+                        if ((l && memcmp(out, exp, l)) || memcmp(tag, et, 16))
+                                viol("chacha20-poly1305-null-zero", "output-differs", "sequence with NULL AAD / NULL zero-length segments differs from the reference (x = length, y = direction)", l, d);
+                        for (int k = 0; k < 3; k++) {
+                                /* GCM streaming */
+                                out = outbuf(0, l ? l : 1);
+                                memset(tag, 0, 16);
+                                GUARDED("gcm-null-zero", {
+                                        CALLN("gcm_init", ginit[k], A(&gk[k]), A(&gctx), A(iv), 0, 0);
+                                        CALLN("gcm_update", gupd[d][k], A(&gk[k]), A(&gctx), 0, 0, 0);
+                                        if (l)
+                                                CALLN("gcm_update", gupd[d][k], A(&gk[k]), A(&gctx), A(out), A(in), A(l));
+                                        CALLN("gcm_update", gupd[d][k], A(&gk[k]), A(&gctx), 0, 0, 0);
+                                        CALLN("gcm_finalize", gfin[d][k], A(&gk[k]), A(&gctx), A(tag), 16);
+                                });
+                                ref_gcm(d, KEY[0], KL[k], iv, 12, NULL, 0, in, exp, l, et);
+                                n_eval++;
+                                if ((l && memcmp(out, exp, l)) || memcmp(tag, et, 16))
+                                        viol("gcm-null-zero", "output-differs", "GCM init/update/finalize with NULL AAD / NULL zero-length segments differs from the reference (x = length, y = key index)", l, k);
+                                /* GCM one shot, NULL AAD (and NULL in/out for the empty message) */
+                                out = outbuf(0, l ? l : 1);
+                                memset(tag, 0, 16);
+                                GUARDED("gcm-one-shot-null-zero", CALLN("gcm_enc_dec", gone[d][k], A(&gk[k]), A(&gctx), l ? A(out) : 0, l ? A(in) : 0, A(l), A(iv), 0, 0, A(tag), 16));
+                                n_eval++;
+                                if ((l && memcmp(out, exp, l)) || memcmp(tag, et, 16))
+                                        viol("gcm-one-shot-null-zero", "output-differs", "one-shot GCM with NULL AAD (NULL buffers when empty) differs from the reference (x = length, y = key index)", l, k);
+                                if (d)
+                                        continue;
+                                /* GMAC: NULL zero-length updates around the data */
+                                memset(tag, 0, 16);
+                                GUARDED("gmac-null-zero", {
+                                        CALLN("gmac_init", minit[k], A(&gk[k]), A(&gctx), A(iv), 12);
+                                        CALLN("gmac_update", mupd[k], A(&gk[k]), A(&gctx), 0, 0);
+                                        if (l)
+                                                CALLN("gmac_update", mupd[k], A(&gk[k]), A(&gctx), A(in), A(l));
+                                        CALLN("gmac_update", mupd[k], A(&gk[k]), A(&gctx), 0, 0);
+                                        CALLN("gmac_finalize", mfin[k], A(&gk[k]), A(&gctx), A(tag), 16);
+                                });
+                                ref_gmac(KEY[0], KL[k], iv, 12, in, l, et);
+                                n_eval++;
+                                if (memcmp(tag, et, 16))
+                                        viol("gmac-null-zero", "tag-differs", "GMAC with NULL zero-length updates differs from the reference (x = length, y = key index)", l, k);
+                        }
+                }
+}
 static void
 t_null_args(void)
 {
@@ -1113,6 +1201,7 @@ run_variant(long v, void *arg)
                 t_bit_level();
                 t_pairs();
                 t_misc();
+                t_null_zero();
         }
         g_place = 0;
         t_null_args();
